@@ -1,5 +1,5 @@
 """C11 — Alephium event fields map faithfully to the attested message."""
-import json, os
+import json, os, threading
 import core
 from vaa_common import monitor_rows
 
@@ -112,6 +112,9 @@ def mon_key(r, m):
         return "wraps-out-of-range"
     return "mon:" + m[:70]
 
+GOLOCK = threading.Lock()   # the two go test runs of this check share build/mod/<module>/go.mod: one at a time (the Coq comparisons overlap)
+
+
 def pipeline_part(ctx):
     """X2: the conversions where the running watcher applies them - the real fetchEvents / handleEvents / handleObsvRequest against the HTTP
     simulated node on histories whose events carry boundary and unfit raw fields; every forwarded message re-derived from the
@@ -119,8 +122,9 @@ def pipeline_part(ctx):
     import alph_common as A
     class _P:   # (a name of its own for the overlay and the trace file: this harness runs next to the check's own one, same Go package)
         pid, tier, seed, say = ctx.pid + "P", ctx.tier, ctx.seed, ctx.say
-    rc, out, trace = core.harness_pkg(_P, "alephium_watcher", "^TestVerifPipe$", timeout=900, race=(ctx.tier == "thorough"),
-                                      env=None if ctx.tier == "thorough" or os.environ.get("VERIF_W_NF") else {"VERIF_W_NF": "100"})
+    with GOLOCK:
+        rc, out, trace = core.harness_pkg(_P, "alephium_watcher", "^TestVerifPipe$", timeout=900, race=(ctx.tier == "thorough"),
+                                          env=None if ctx.tier == "thorough" or os.environ.get("VERIF_W_NF") else {"VERIF_W_NF": "100"})
     rows = [r for r in core.read_jsonl(trace) if r.get("k") == "hist"]
     if rc != 0 or not rows:
         cr = A.parse_crash(out)
@@ -134,7 +138,7 @@ def pipeline_part(ctx):
     nmon, classes = A.monitors(ctx, rows, "C11")
     ctx.cov["pipeline_monitor_findings"] = classes
     ctx.pipe_stats = (sum(len(r["steps"]) for r in rows), len({(r["id"], i) for r in rows for i, s in enumerate(r["steps"]) if s.get("msgs")}))
-    A.pipe_report(ctx, "cases_C11_pipe", rows, "full")
+    A.pipe_report(ctx, "cases_C11_pipe", rows, "msgs")
 
 
 def pipeline_start(ctx):
@@ -174,7 +178,8 @@ def run_main(ctx):
     # the harness builds attestation payloads and events the way the contracts do, from the layout extracted just now
     ral = st.get("ral_attest", {})
     env = {"VERIF_C11_RAL": json.dumps(ral["info"])} if ral.get("ok") else {}
-    rc, out, trace = core.harness_pkg(ctx, "alephium", "^TestVerifC11$", env=env)
+    with GOLOCK:
+        rc, out, trace = core.harness_pkg(ctx, "alephium", "^TestVerifC11$", env=env)
     rows = core.read_jsonl(trace)
     if rc != 0 or not rows:
         ctx.problem("correspondence", "go harness C11", out[-1500:])
